@@ -16,7 +16,7 @@ LEVEL_TEXT = ("Every field of the three state replies and the login reply is gen
               "response dataclasses directly. Sampling; no proof for unseen values.")
 RULE = ("case = (reply kind, field values, noise salt, session); non-trivial = all multi-byte fields have pairwise different "
         "bytes (so endianness/offset slips are visible); distinct by the field tuple."
-        ' Also: sequences of 2..8 replies of different kinds decoded in one process (mixed), 2..6 queries on one connection with some replies cut short (api-history), host zones other than UTC, field values 0xF0FE/0xFEF0, non-ASCII remote ids of <= 8 bytes.')
+        ' Also: sequences of 2..8 replies of different kinds decoded in one process (mixed), 2..6 queries on one connection with some replies cut short or answered 4 s .. 1 h late under the harness-owned loop clock (api-history: whatever response object comes back, also after a late reply, must be what the device encoded for that very query), host zones other than UTC, field values 0xF0FE/0xFEF0, non-ASCII remote ids of <= 8 bytes.')
 ASSUMPTIONS = [
     "reply layout of DESIGN appendix A.2, pinned by get_state_response / get_breeze_state / get_shutter_state_response / login captures",
     "amps = watts/220 within 0.05 and rendered to one decimal; temperature = tenths/10 within 1e-9",
@@ -193,8 +193,17 @@ async def api_history(case):
             good = encode(kind, q["fields"], q["salt"])
             data = good[:q["cut"]] if q.get("cut") else good
             cl.conn.script.clear()
-            cl.conn.script.extend([{"data": replies.login("0a0b0c0d", 44, q["salt"])}, {"data": data}])
-            out.append(await cl.call(op, {}))
+            script = [{"data": replies.login("0a0b0c0d", 44, q["salt"])}, {"data": data}]
+            slow = q.get("slow")
+            if slow:
+                script[slow["step"] % 2]["sleep"] = slow["secs"]        # the right reply, late (event-loop time)
+            cl.conn.script.extend(script)
+            res = await cl.call(op, {}, timeout=40.0 + 2 * (slow["secs"] if slow else 0))
+            if slow and res[0] != "ok":
+                import asyncio
+                await asyncio.sleep(slow["secs"] + 1)       # the client gave up: let the device finish its late answer
+                await cl.settle()
+            out.append(res)
         return out
     finally:
         for cl in clients.values():
@@ -204,16 +213,29 @@ async def api_history(case):
 def body_api_history(rep, case):
     """Several state queries on one connection per API type; some replies are cut short (those queries may raise
     RuntimeError); every well-formed reply, also right after a bad one, must decode exactly."""
-    res = net.run(api_history(case))
-    rep.tick("api-history", key=case, nontrivial=any(q.get("cut") for q in case["queries"][:-1]), sample=case,
-             labels=("has-malformed-reply",) if any(q.get("cut") for q in case["queries"]) else ())
+    has_slow = any(q.get("slow") for q in case["queries"])
+    if has_slow:
+        with net.virtual_time():
+            res = net.run(api_history(case))
+    else:
+        res = net.run(api_history(case))
+    sub = case.get("sub", "api-history")
+    rep.tick(sub, key=case, nontrivial=any(q.get("cut") or q.get("slow") for q in case["queries"][:-1]), sample=case,
+             labels=(("has-malformed-reply",) if any(q.get("cut") for q in case["queries"]) else ()) + (("has-late-reply",) if has_slow else ()))
     for i, (q, (status, r)) in enumerate(zip(case["queries"], res)):
         one = {"queries": case["queries"][:i + 1]}
         kind = q["reply"]
         if q.get("cut"):
             continue       # C09's business
         after_bad = any(p.get("cut") for p in case["queries"][:i])
-        sig = f"C08/{kind}" + ("/after-malformed-reply" if after_bad else "/later-query-on-connection" if i else "")
+        after_slow = any(p.get("slow") for p in case["queries"][:i + 1])
+        sig = f"C08/{kind}" + ("/after-late-reply" if after_slow else "/after-malformed-reply" if after_bad
+                               else "/later-query-on-connection" if i else "")
+        if status != "ok" and after_slow:
+            # a client may give up on a late answer (and whatever follows on that connection may fail): no response object,
+            # nothing to compare.  What IS returned must be what the device encoded for that very query.
+            rep.label("no-response-after-late-reply")
+            continue
         if status != "ok":
             raise Violation(f"{sig}/well-formed-reply-not-parsed/{type(r).__name__ if r is not None else status}", one,
                             "a response object", f"{status}: {r!r}")
@@ -222,8 +244,11 @@ def body_api_history(rep, case):
 
 def strat_api_history():
     def q(k):
-        return st.builds(lambda f, salt, cut: dict({"reply": k, "fields": f, "salt": salt}, **({"cut": cut} if cut else {})),
-                         FIELDS[k], st.integers(1, 250), st.one_of(st.just(0), st.just(0), st.integers(1, 99)))
+        slow = st.one_of(st.none(), st.none(), st.none(), st.builds(lambda step, secs: {"step": step, "secs": secs}, st.integers(0, 1),
+                                                                      st.sampled_from([4, 6, 11, 31, 61, 3601])))
+        return st.builds(lambda f, salt, cut, sl: dict({"reply": k, "fields": f, "salt": salt}, **({"cut": cut} if cut else {}),
+                                                       **({"slow": sl} if sl and not cut else {})),
+                         FIELDS[k], st.integers(1, 250), st.one_of(st.just(0), st.just(0), st.integers(1, 99)), slow)
     one = st.sampled_from(["state1", "shutter", "thermostat"]).flatmap(q)
     return st.lists(one, min_size=2, max_size=6).map(lambda qs: {"queries": qs})
 
